@@ -12,7 +12,7 @@ resolve in write order; after the transport accepts everything, everything is de
 every future is resolved; an over-limit write raises StreamBufferFullError and changes nothing.
 
 Stated deviation: _StreamBuffer._large_buf_threshold (2048, a class attribute) is shadowed by
-the instance attribute value P.THR (=3) so that both the coalescing path (<= threshold) and the
+the instance attribute value P.THR (=2) so that both the coalescing path (<= threshold) and the
 zero-copy memoryview path (> threshold) are reachable with tiny sizes; the code is unchanged.
 h_write_real_threshold runs with the real 2048 (sizes 2047/2048/2049, symbolic partial sends).
 """
@@ -32,32 +32,47 @@ PAT = bytes((i * 7 + 1) % 251 for i in range(8192))     # every window of 2 byte
 # ------------------------------------------------------------------------------------------
 # (a) _StreamBuffer against a bytearray model
 
-def pre_buf(ops: List[Tuple[int, int]]) -> bool:
+# op codes: 0..4 append bytes of size c | 5..8 append memoryview of size c-4 | 9..12 peek(c-8) |
+# 13..16 advance(c-12) | 17,18 append bytearray of size 2 / 4 (thorough only: K=19)
+def _decode(c):
+    if c <= 4:
+        return 0, c
+    if c <= 8:
+        return 1, c - 4
+    if c <= 12:
+        return 3, c - 8
+    if c <= 16:
+        return 4, c - 12
+    return 2, (2 if c == 17 else 4)
+
+
+def pre_buf(ops: List[int]) -> bool:
     if not len(ops) <= P.N:
         return False
-    for k, n in ops:
-        if not (0 <= k <= 4 and 0 <= n <= P.S):
+    for c in ops:
+        if not 0 <= c < P.K:
             return False
-    key = (ops[0][0] if len(ops) > 0 else 0) + 5 * (ops[1][0] if len(ops) > 1 else 0)
-    return in_shard(key)
+    return in_shard(ops[0] if len(ops) > 0 else 0)
 
 
 @harness(
     pre=pre_buf,
-    quick=dict(N=4, S=5, THR=3, timeout=100),
-    thorough=dict(N=5, S=5, THR=3, timeout=1400),
-    nshards=dict(quick=25, thorough=25),
+    quick=dict(N=3, K=17, THR=2, timeout=100),
+    thorough=dict(N=4, K=19, THR=2, timeout=1500),
+    nshards=dict(quick=17, thorough=19),
     reach=["coalesced", "large_view", "advance_inside_large", "advance_across_chunks"],
     units=["iostream._StreamBuffer.append", "iostream._StreamBuffer.peek",
            "iostream._StreamBuffer.advance", "iostream._StreamBuffer.__len__"],
-    stubs=["_large_buf_threshold shadowed by an instance attribute = 3 (real value 2048; code unchanged)",
-           "appended content = successive windows of a fixed position-unique pattern (sizes symbolic)"],
-    outside=["histories longer than N operations", "pieces longer than S bytes",
+    stubs=["_large_buf_threshold shadowed by an instance attribute = 2 (real value 2048; code unchanged)",
+           "appended content = successive windows of a fixed position-unique pattern (sizes symbolic)",
+           "operations are symbolic codes decoded to (kind, size 0..4); after the history the buffer is drained "
+           "with peek/advance like _handle_write does"],
+    outside=["histories longer than N operations", "pieces longer than 4 bytes (2x the shadowed threshold)",
              "callers that mutate a bytearray/memoryview after appending it (zero-copy aliasing)",
              "peek(0)/advance(0)/advance(>len) which the API excludes by assert"],
 )
-def h_buf(ops: List[Tuple[int, int]]):
-    """ops: (0 append bytes | 1 append memoryview | 2 append bytearray | 3 peek | 4 advance, n)"""
+def h_buf(ops: List[int]):
+    """ops: symbolic op codes, see _decode"""
     sb = iostream._StreamBuffer()
     sb._large_buf_threshold = P.THR
     model = bytearray()
@@ -72,7 +87,8 @@ def h_buf(ops: List[Tuple[int, int]]):
             "peek shows %r, FIFO head is %r" % (got, bytes(model))
         assert len(got) > 0 or len(model) == 0, "peek returned nothing from a non-empty buffer"
 
-    for k, n in ops:
+    for c in ops:
+        k, n = _decode(c)
         if k <= 2:
             piece = PAT[off:off + n]
             off += n
@@ -175,6 +191,8 @@ def _drive_writes(ops, wscript, mw, thr):
                     raised = e
                 if over:
                     reached("refused")
+                    if pending > 0:
+                        reached("refused_with_pending")
                     assert raised is not None, \
                         "write of %d bytes with %d pending exceeds max_write_buffer_size=%d but was accepted" % (
                             size, pending, mw)
@@ -202,6 +220,8 @@ def _drive_writes(ops, wscript, mw, thr):
         k.wi = 0
         guard = 0
         while registered(env, IOLoop.WRITE) and guard < 4:
+            if 0 < len(k.sent) < len(expected):
+                reached("drain_resumed")
             fire(env, IOLoop.WRITE)
             guard += 1
         env.run_ready()
@@ -216,74 +236,123 @@ def _drive_writes(ops, wscript, mw, thr):
         assert not env.v.exc_contexts, "exception escaped a callback: %r" % (env.v.exc_contexts,)
 
 
-def pre_write(ops: List[Tuple[int, int]], wscript: List[int], mw: Optional[int]) -> bool:
+# op codes: 0..3 write(bytes of size c) | 4 write(memoryview of size 3) | 5 WRITE-ready event |
+# 6 write(memoryview of size 1) (thorough only: K=7)
+def _wdecode(c):
+    if c <= 3:
+        return 0, c
+    if c == 4:
+        return 1, 3
+    if c == 5:
+        return 2, 0
+    return 1, 1
+
+
+def pre_write(ops: List[int], wscript: List[int]) -> bool:
     if not (len(ops) <= P.N and len(wscript) <= P.W):
         return False
-    if mw is not None and not 0 <= mw <= P.M:
-        return False
-    for kind, size in ops:
-        if not (0 <= kind <= 2 and 0 <= size <= P.S):
+    for c in ops:
+        if not 0 <= c < P.K:
             return False
     for a in wscript:
-        if not -1 <= a <= P.S:
+        if not -1 <= a <= 3:
             return False
-    key = (ops[0][0] if len(ops) > 0 else 0) + 3 * (ops[1][0] if len(ops) > 1 else 0) \
-        + 9 * (0 if mw is None else 1)
-    return in_shard(key)
+    return in_shard((ops[0] if len(ops) > 0 else 0) + P.K * (ops[1] if len(ops) > 1 else 0))
+
+
+_W_UNITS = ["iostream.BaseIOStream.write", "iostream.BaseIOStream._handle_write",
+            "iostream.BaseIOStream._handle_events", "iostream.BaseIOStream._add_io_state",
+            "iostream._StreamBuffer.append", "iostream._StreamBuffer.peek", "iostream._StreamBuffer.advance"]
+_W_STUBS = ["FakeFdStream scripted kernel (harness/_iostream_rig.py): write_to_fd accepts a symbolic prefix "
+            "length per call (-1 = BlockingIOError, else min(a, len)) for the first W calls; afterwards it "
+            "accepts everything",
+            "VLoop/FakeAio virtual loop (vp/env.py); WRITE readiness is delivered by calling the registered handler",
+            "written content = successive windows of a fixed position-unique pattern (sizes symbolic)"]
 
 
 @harness(
     pre=pre_write,
-    quick=dict(N=3, W=3, S=5, M=6, THR=3, timeout=100),
-    thorough=dict(N=4, W=4, S=5, M=8, THR=3, timeout=1400),
-    nshards=dict(quick=18, thorough=18),
-    reach=["refused", "resumed_after_partial", "several_resolved"],
-    units=["iostream.BaseIOStream.write", "iostream.BaseIOStream._handle_write",
-           "iostream.BaseIOStream._handle_events", "iostream.BaseIOStream._add_io_state",
-           "iostream._StreamBuffer.append", "iostream._StreamBuffer.peek", "iostream._StreamBuffer.advance"],
-    stubs=["FakeFdStream scripted kernel (harness/_iostream_rig.py): write_to_fd accepts a symbolic prefix "
-           "length per call or raises BlockingIOError; once the script is exhausted it accepts everything",
-           "VLoop/FakeAio virtual loop (vp/env.py); WRITE readiness is delivered by calling the registered handler",
-           "_large_buf_threshold shadowed by an instance attribute = 3 (real value 2048; code unchanged)",
-           "written content = successive windows of a fixed position-unique pattern (sizes symbolic)"],
-    outside=["more than N operations / W scripted sends", "writes longer than S bytes (see h_write_real_threshold)",
-             "transport errors during write (C13)", "non-contiguous memoryviews", "SSL"],
+    quick=dict(N=3, W=2, K=6, THR=2, timeout=100),
+    thorough=dict(N=4, W=3, K=7, THR=2, timeout=1500),
+    nshards=dict(quick=36, thorough=49),
+    reach=["resumed_after_partial", "several_resolved"],
+    units=_W_UNITS,
+    stubs=_W_STUBS + ["_large_buf_threshold shadowed by an instance attribute = 2 (real value 2048; code unchanged)"],
+    outside=["more than N operations / W scripted short sends", "writes longer than 3 bytes (see h_write_real_threshold)",
+             "max_write_buffer_size (h_write_limit)", "transport errors during write (C13)",
+             "non-contiguous memoryviews", "SSL"],
 )
-def h_write(ops: List[Tuple[int, int]], wscript: List[int], mw: Optional[int]):
-    _drive_writes(ops, wscript, mw, P.THR)
+def h_write(ops: List[int], wscript: List[int]):
+    """Symbolic history of writes / writability events with symbolic partial sends, no buffer limit."""
+    _drive_writes([_wdecode(c) for c in ops], wscript, None, P.THR)
+
+
+def pre_limit(s1: int, a1: int, ops: List[int], mw: int) -> bool:
+    if not (0 <= s1 <= 4 and -1 <= a1 <= 4 and 0 <= mw <= P.M and len(ops) <= P.N):
+        return False
+    for c in ops:
+        if not 0 <= c <= 5:
+            return False
+    return in_shard(s1)
+
+
+@harness(
+    pre=pre_limit,
+    quick=dict(N=1, M=6, THR=2, timeout=100),
+    thorough=dict(N=3, M=8, THR=2, timeout=1500),
+    nshards=dict(quick=5, thorough=5),
+    reach=["refused", "refused_with_pending"],
+    units=_W_UNITS,
+    stubs=_W_STUBS + ["_large_buf_threshold shadowed by an instance attribute = 2",
+                      "pre-state: one write of s1 bytes of which the transport accepts a1 (symbolic), then N "
+                      "symbolic operations under a symbolic max_write_buffer_size 0..M"],
+    outside=["max_write_buffer_size larger than M", "more than 1+N operations"],
+)
+def h_write_limit(s1: int, a1: int, ops: List[int], mw: int):
+    """max_write_buffer_size: a write is refused iff pending+len > limit, and a refusal changes nothing."""
+    _drive_writes([(0, s1)] + [_wdecode(c) for c in ops], [a1], mw, P.THR)
 
 
 # real threshold: concrete sizes around 2048 chosen by symbolic index, symbolic partial sends
-SIZES = [0, 1, 2047, 2048, 2049]
-SENDS = [-1, 0, 1, 2047, 2048, 2049, 5000]
+SIZES = [1, 2047, 2048, 2049]
+SENDS = [-1, 1, 2047, 2048, 2049]
+
+
+def _pick(pool, i):
+    # branch on the symbolic index so that the chosen size is a concrete int on every path
+    for j in range(len(pool) - 1):
+        if i == j:
+            return pool[j]
+    return pool[-1]
 
 
 def pre_real(ops: List[Tuple[int, int]], wscript: List[int]) -> bool:
     if not (len(ops) <= P.N and len(wscript) <= P.W):
         return False
     for kind, si in ops:
-        if not (0 <= kind <= 2 and 0 <= si < len(SIZES)):
+        if not (0 <= kind <= 1 and 0 <= si < len(SIZES)):
             return False
     for a in wscript:
         if not 0 <= a < len(SENDS):
             return False
-    return in_shard((ops[0][1] if len(ops) > 0 else 0) + 5 * (ops[1][0] if len(ops) > 1 else 0))
+    return in_shard((ops[0][1] if len(ops) > 0 else 0) + 4 * (ops[0][0] if len(ops) > 0 else 0))
 
 
 @harness(
     pre=pre_real,
-    quick=dict(N=2, W=2, timeout=100),
-    thorough=dict(N=3, W=3, timeout=1400),
-    nshards=dict(quick=5, thorough=15),
-    reach=["resumed_after_partial"],
-    units=["iostream.BaseIOStream.write", "iostream.BaseIOStream._handle_write",
-           "iostream._StreamBuffer.append", "iostream._StreamBuffer.peek", "iostream._StreamBuffer.advance"],
-    stubs=["as h_write, but with the REAL _large_buf_threshold (2048); write sizes and per-call accepted "
-           "lengths are chosen by symbolic index from the pools SIZES / SENDS around the threshold"],
-    outside=["sizes other than the pool values", "max_write_buffer_size (covered by h_write)"],
+    quick=dict(N=2, W=1, timeout=100),
+    thorough=dict(N=3, W=2, timeout=1500),
+    nshards=dict(quick=8, thorough=8),
+    reach=["drain_resumed"],
+    units=_W_UNITS,
+    stubs=_W_STUBS + ["the REAL _large_buf_threshold (2048); write sizes and per-call accepted lengths are chosen "
+                      "by symbolic index from the pools SIZES / SENDS around the threshold; WRITE events only in the "
+                      "final drain"],
+    outside=["sizes other than the pool values", "max_write_buffer_size (h_write_limit)"],
 )
 def h_write_real_threshold(ops: List[Tuple[int, int]], wscript: List[int]):
-    _drive_writes([(kind, SIZES[si]) for kind, si in ops], [SENDS[a] for a in wscript], None, None)
+    _drive_writes([(0 if kind == 0 else 1, _pick(SIZES, si)) for kind, si in ops],
+                  [_pick(SENDS, a) for a in wscript], None, None)
 
 
 TECHNIQUE = ("CrossHair symbolic execution of the real _StreamBuffer and BaseIOStream write path; operation "
@@ -291,5 +360,5 @@ TECHNIQUE = ("CrossHair symbolic execution of the real _StreamBuffer and BaseIOS
              "reference oracle = bytearray FIFO / concatenation model")
 ASSUMPTIONS = [
     "transport contract: write_to_fd reports the length of the prefix it accepted (0..len) or raises BlockingIOError",
-    "_large_buf_threshold shadowed to 3 in h_buf/h_write (stated deviation); real value in h_write_real_threshold",
+    "_large_buf_threshold shadowed to 2 in h_buf/h_write (stated deviation); real value in h_write_real_threshold",
 ]
